@@ -169,6 +169,17 @@ fn check_cli(c: char, l: &str, r: &str) -> Result<(), (String, String)> {
             ));
         }
     }
+    // Tab with the cursor left of X and nothing to complete: the line (every octet of X included) stays as it is
+    if !"help".starts_with(typed.trim_matches(' ')) {
+        type_str(&mut s, "\t").map_err(e)?;
+        let ed = s.editor();
+        if ed.bytes != typed.as_bytes() || ed.cursor != ln {
+            return Err((
+                format!("Tab with nothing to complete leaves line {:?} cursor {}", typed, ln),
+                format!("{:?} ({:02x?}) cursor {}", String::from_utf8_lossy(&ed.bytes), ed.bytes, ed.cursor),
+            ));
+        }
+    }
     type_str(&mut s, "\x1b[C").map_err(e)?;
     if s.editor().cursor != ln + 1 {
         return Err((format!("cursor {} after moving right over {:?}", ln + 1, cs), format!("{}", s.editor().cursor)));
